@@ -12,6 +12,7 @@ import (
 	"errors"
 	"fmt"
 	"io"
+	"math"
 	"math/rand"
 	"testing"
 
@@ -138,8 +139,10 @@ func offClass(off int) string {
 		return "<2^20"
 	case off < 1<<32:
 		return "<2^32"
+	case off < 1<<41:
+		return "<2^41"
 	}
-	return ">=2^32"
+	return "near-MaxInt"
 }
 
 func lenClass(n int) string {
@@ -207,7 +210,9 @@ func TestCipherExhaustive(t *testing.T) {
 			continue
 		}
 		content := pattern(n, uint32(n)*2654435761+12345)
-		for _, off := range offsets {
+		// the largest offsets a stream position can take: offset+len <= MaxInt
+		offs := append(append([]int(nil), offsets...), 1<<62, math.MaxInt-n-3, math.MaxInt-n-2, math.MaxInt-n-1, math.MaxInt-n)
+		for _, off := range offs {
 			for a := 0; a <= maxAlign; a++ {
 				for ki, key := range keys {
 					cnt++
@@ -225,7 +230,7 @@ func TestCipherExhaustive(t *testing.T) {
 		}
 	}
 	hx.EvalN(cnt)
-	hx.Part(fmt.Sprintf("Cipher: len 0..%d x offsets {0..11, 2^31-1..2^31+1, 2^32-1..2^32+3, 2^40-3..2^40} x align 0..%d x 2 keys", maxLen, maxAlign), int64(cnt), true)
+	hx.Part(fmt.Sprintf("Cipher: len 0..%d x offsets {0..11, 2^31-1..2^31+1, 2^32-1..2^32+3, 2^40-3..2^40, 2^62, MaxInt-len-3..MaxInt-len} x align 0..%d x 2 keys", maxLen, maxAlign), int64(cnt), true)
 }
 
 // Random payload / key / offset / alignment, applied in one call and as
@@ -236,6 +241,9 @@ func TestCipherRandom(t *testing.T) {
 		a := rapid.IntRange(0, 15).Draw(t, "align")
 		key := gen.Key(t, "key")
 		off := drawOffset(t, "offset")
+		if rapid.IntRange(0, 9).Draw(t, "offsetNearMaxInt") == 0 {
+			off = math.MaxInt - n - rapid.IntRange(0, 7).Draw(t, "below")
+		}
 		content := pattern(n, drawSeed(t))
 		pieces := gen.Split(t, "split", content, 6)
 		hx.Eval()
@@ -362,6 +370,10 @@ func TestFrameHelpers(t *testing.T) {
 
 		w := newWin(content, a)
 		in := ws.Frame{Header: hdr, Payload: w.p()}
+		if n == 0 && rapid.Bool().Draw(t, "nilPayload") {
+			in.Payload = nil
+			hx.Class("frame/nil-payload")
+		}
 		var out ws.Frame
 		rand.Seed(seed)
 		switch api {
@@ -706,7 +718,7 @@ func TestCipherReaderFeedingModes(t *testing.T) {
 		var used []string
 		odd, done := false, false
 		for i := 0; i < nops && !done; i++ {
-			op := rapid.SampledFrom([]string{"Read", "ReadFull", "ReadAtLeast", "ReadByte", "CopyN", "Copy"}).Draw(t, "op")
+			op := rapid.SampledFrom([]string{"Read", "Read(empty)", "ReadFull", "ReadAtLeast", "ReadByte", "CopyN", "Copy"}).Draw(t, "op")
 			if i == nops-1 {
 				op = "Copy" // drain the rest
 			}
@@ -721,6 +733,15 @@ func TestCipherReaderFeedingModes(t *testing.T) {
 				var k int
 				k, err = cr.Read(buf)
 				got = append(got, buf[:k]...)
+			case "Read(empty)":
+				// takes nothing out and leaves the stream where it was
+				k, e := cr.Read(nil)
+				if k != 0 {
+					t.Fatalf("Read(nil) returned n=%d", k)
+				}
+				if e != nil && e != io.EOF {
+					t.Fatalf("Read(nil): %v", e)
+				}
 			case "ReadFull":
 				buf := make([]byte, rapid.IntRange(1, 40).Draw(t, "size"))
 				var k int
